@@ -70,7 +70,11 @@ def run_differential(mod, prop, tier, seed, stage_paths, workdir, spawn, collect
                 stats["classes"]["interpretation-raises(harness)"] += 1
             for ci in range(1, len(cfgs)):
                 if trs[ci][k] != ref:
-                    mismatches.append((case, 0, ci, mod.first_difference(ref, trs[ci][k])))
+                    fd = mod.first_difference(ref, trs[ci][k])
+                    if fd is None:
+                        stats["classes"]["raises-in-all-configurations(type differs, order dependent)"] += 1
+                        continue
+                    mismatches.append((case, 0, ci, fd))
                     break
     stats["extra"]["programs"] = len(corpus)
     stats["extra"]["configurations"] = [f"{m}/PYTHONHASHSEED={h}" for m, h in cfgs]
